@@ -1,5 +1,439 @@
 package main
 
-func genC09(r *rng, tier string) *Case        { return &Case{} }
-func genC10(r *rng, tier string, n int) *Case { return &Case{} }
-func execHist(c *Case, sc *Script, o *Obs)    { o.Invalid = "not implemented" }
+import (
+	"encoding/json"
+	"fmt"
+	"strings"
+	"time"
+)
+
+// ---------- program library for C10 / C11 (arguments: a, b ints, src list) ----------
+
+var histProgs = []string{
+	"let l=numbers(9).map(x->x*2); l[a]",
+	"let l=numbers(9).map(x->x*2); l.append(a).size()+l.size()",
+	"let l=numbers(9).map(x->x*2); l.append(a).append(b).string()",
+	"let l=[1,2,3]; l.append(a).string()+l.string()",
+	"let m={x:1,y:[1,2]}; m.put(\"z\",a).string()",
+	"let m={f: x->x+1, g: x->x*2}; m.f(a)+m.g(b)",
+	"func fib(n) if n<2 then n else fib(n-1)+fib(n-2); fib(a%15)",
+	"let k=5; let add=x->y->x+y+k; add(a)(b)",
+	"try [1,2,3][a] catch -1",
+	"if a%2=0 then throw(\"even\") else a",
+	"src.map(x->x*a).reduce((p,q)->p+q)",
+	"src.map(x->cost(0,x)*2).top(b+1).sum()",
+	"src.map(x->cost(0,x)+a)",
+	"numbers(a*10).map(x->cost(0,x)).accept(x->x%3=0).size()",
+	"let l=numbers(12).map(x->x+1).eval(); l.reverse().first()+l.first()+a",
+	"let big=numbers(40).map(x->x*x); big.top(a).sum()",
+	"src.multiUse({s: l->l.sum(), n: l->l.size()}).s+a",
+	"numbers(a+2).merge(src, (p,q)->p<q).string()",
+	"let c=numbers(8).order(x->0-x); c[a%8]+c.size()",
+	"src.groupByEqual(x->x%3).map(g->g.values.size()).string()",
+	"a%(b-2)",
+	"let l=numbers(5).map(x->fail(1,x)); try l.sum() catch a",
+	"let l=numbers(7).map(x->x*3); let m=l.append(a); let n=l.append(b); [l.size(), m.last(), n.last()].string()",
+	"let l=numbers(9).map(x->x+1); (a ~ l) & (l.size()=9)",
+	"let l=numbers(9).map(x->x+1); l.indexWhere(x->x>a)+l.present(x->x=b)",
+	"let m={a:numbers(4).map(x->x*x), b:2}; m.a[a%4]+m.b",
+	"let l=numbers(6).combine((p,q)->p+q); l.append(a).sum()+l[b%5]",
+	"src.map(x->cost(0,boom(1,x))).sum()",
+	"let t=numbers(30).map(x->x%7).order(x->x); t.top(a%5+1).string()",
+	"let l=numbers(10).map(x->x*2); l.set(a%10, b).sum()+l.sum()",
+}
+
+func genHistArgs(r *rng) []Arg {
+	a := pick(r, 0, 1, 2, 3, 5, 8, 9, 20, 50)
+	b := pick(r, 0, 1, 2, 7)
+	var src Arg
+	switch r.intn(4) {
+	case 0:
+		n := pick(r, 0, 1, 5, 20, 40)
+		l := make([]int, n)
+		for i := range l {
+			l[i] = (i*7 + 3) % 23
+		}
+		src = Arg{K: "ints", L: l}
+	case 1, 2:
+		src = Arg{K: "nums", I: pick(r, 0, 1, 13, 30, 60)}
+	default:
+		n := pick(r, 5, 20, 40)
+		src = Arg{K: "hostlist", I: n, FailAt: 1 + r.intn(n), FailOn: pick(r, 1, 1, 2)}
+	}
+	return []Arg{{K: "int", I: a}, {K: "int", I: b}, src}
+}
+
+func genC10(r *rng, tier string, clients int) *Case {
+	nProg := r.rangeInt(1, 4)
+	var setup []Op
+	used := map[int]bool{}
+	for i := 0; i < nProg; i++ {
+		p := r.intn(len(histProgs))
+		for used[p] {
+			p = r.intn(len(histProgs))
+		}
+		used[p] = true
+		setup = append(setup, Op{Kind: "gen", Text: histProgs[p], ArgNames: []string{"a", "b", "src"}, Fn: i})
+	}
+	nfn := nProg + 2
+	if clients == 0 {
+		clients = pick(r, 2, 2, 3, 4, 8)
+	}
+	total := r.rangeInt(4, 24)
+	if tier == "thorough" {
+		total = r.rangeInt(4, 50)
+	}
+	pool := make([][]Arg, r.rangeInt(1, 4))
+	for i := range pool {
+		pool[i] = genHistArgs(r)
+	}
+	cl := make([][]Op, clients)
+	for i := 0; i < total; i++ {
+		c := r.intn(clients)
+		var op Op
+		if clients == 1 && r.chance(0.08) {
+			// another Generate on the same generator in between
+			op = Op{Kind: "gen", Text: histProgs[r.intn(len(histProgs))], ArgNames: []string{"a", "b", "src"}, Fn: nProg + r.intn(2)}
+		} else {
+			fn := r.intn(nProg)
+			if clients == 1 && r.chance(0.1) {
+				fn = nProg + r.intn(2) // may not be generated yet: skipped
+			}
+			op = Op{Kind: "eval", Fn: fn, Args: pick(r, pool...), Consume: pick(r, -1, -1, -1, 0, 1, 3)}
+			if r.chance(0.2) {
+				op.Args = genHistArgs(r)
+			}
+		}
+		cl[c] = append(cl[c], op)
+	}
+	host := HostTables{Costs: []CostProf{{Base: pick(r, int64(0), 0, 300_000, 400_000)}}, Fails: []Match{{}, {Kind: "eq", A: 3}}, Booms: []Match{{}, {Kind: "eq", A: pick(r, 2, 17, 1000)}}}
+	sim, stalls := genSim(r, true, true)
+	if clients > 1 && sim.Policy == "canonical" {
+		sim.Policy = "pct"
+		sim.PCTDepth = 2
+	}
+	sc := &Script{Setup: setup, Clients: cl, Host: host, NFn: nfn}
+	return &Case{Class: fmt.Sprintf("clients=%d", clients), Sim: sim, StallF: stalls, Script: sc}
+}
+
+// ---------- C09: histories over a pool of handles ----------
+
+// derive programs over handles h (and g) plus small ints i, v
+var c09Derive = []string{
+	"h.append(v)",
+	"h.append(v).append(i)",
+	"h.set(i%(h.size()+1), v)",
+	"h.reverse()",
+	"h.order(x->0-x)",
+	"h.orderLess((p,q)->p>q)",
+	"h+g",
+	"h.top(i)",
+	"h.skip(i)",
+	"h.map(x->x+v)",
+	"h.accept(x->x%2=0)",
+	"h.eval()",
+	"h.combineN(2, l->l)",
+	"h.combineN(3, l->l).map(l->l.size())",
+	"h.movingWindow(x->x)",
+	"[h, g]",
+	"{a:h, b:g}.a",
+	"h.map(x->cost(0,x)+v)",
+	"h.map(x->fail(1,x))",
+	"h.map(x->fail(1,x)).eval()",
+	"h.combine((p,q)->p+q)",
+	"h.number((n,x)->x+n)",
+	"g.cross(h, (p,q)->p+q).top(20)",
+	"h.merge(g, (p,q)->p<q)",
+	"h.iir(x->x, (x,l)->x+l)",
+	"h.groupByEqual(x->x%3)",
+	"h.replaceList(l->l.append(v))",
+	"h.compact((p,q)->p=q)",
+}
+var c09DeriveMap = []string{
+	"m.put(\"n\"+v, v)",
+	"m.replace(x->{k0:v})",
+	"m+{zz:v}",
+	"m.map((k,x)->x+v)",
+	"m.accept((k,x)->x%2=0)",
+	"{inner:m, l:h}",
+	"m.put(\"l\", h)",
+	"m.put(\"n\"+v, v).put(\"o\"+i, i)",
+}
+
+func genC09(r *rng, tier string) *Case {
+	const nH = 8
+	var setup []Op
+	fnOf := map[string]int{}
+	fn := func(text string, names ...string) int {
+		if i, ok := fnOf[text]; ok {
+			return i
+		}
+		i := len(setup)
+		fnOf[text] = i
+		setup = append(setup, Op{Kind: "gen", Text: text, ArgNames: names, Fn: i})
+		return i
+	}
+	var ops []Op
+	live := []int{}
+	isMap := map[int]bool{}
+	// initial handles
+	mk := func(slot int) {
+		switch r.intn(6) {
+		case 0:
+			ops = append(ops, Op{Kind: "eval", Fn: fn("numbers(i).map(x->x*2)", "i", "v"), Args: []Arg{{K: "int", I: pick(r, 0, 1, 4, 9, 16)}, {K: "int", I: 0}}, Consume: 0, Store: slot + 1})
+		case 1:
+			ops = append(ops, Op{Kind: "eval", Fn: fn("let c=numbers(9).map(x->x*3); c", "i", "v"), Args: []Arg{{K: "int", I: 0}, {K: "int", I: 0}}, Consume: 0, Store: slot + 1})
+		case 2:
+			ops = append(ops, Op{Kind: "eval", Fn: fn("[1,2,3,4,5]", "i", "v"), Args: []Arg{{K: "int", I: 0}, {K: "int", I: 0}}, Consume: 0, Store: slot + 1})
+		case 3:
+			n := pick(r, 5, 13, 30)
+			ops = append(ops, Op{Kind: "eval", Fn: fn("src", "src"), Args: []Arg{{K: "hostlist", I: n, FailAt: pick(r, 0, 0, 1+r.intn(n)), FailOn: pick(r, 1, 2)}}, Consume: 0, Store: slot + 1})
+		case 4:
+			l := make([]int, pick(r, 0, 1, 6, 17))
+			for i := range l {
+				l[i] = (i*5 + 1) % 11
+			}
+			ops = append(ops, Op{Kind: "eval", Fn: fn("src", "src"), Args: []Arg{{K: "ints", L: l}}, Consume: 0, Store: slot + 1})
+		default:
+			ops = append(ops, Op{Kind: "eval", Fn: fn("src", "src"), Args: []Arg{{K: "map", L: []int{1, 2, 3}[:r.rangeInt(1, 3)]}}, Consume: 0, Store: slot + 1})
+			isMap[slot] = true
+		}
+		live = append(live, slot)
+	}
+	observeAll := func() {
+		for _, s := range live {
+			ops = append(ops, Op{Kind: "eval", Fn: fn("h", "h"), Args: []Arg{{K: "handle", I: s}}, Consume: -1, Observe: true})
+			if r.chance(0.5) {
+				ops = append(ops, Op{Kind: "eval", Fn: fn("[h.size(), h.string()]", "h"), Args: []Arg{{K: "handle", I: s}}, Consume: -1, Observe: true})
+			}
+		}
+	}
+	mk(0)
+	if r.chance(0.7) {
+		mk(1)
+	}
+	observeAll()
+	steps := r.rangeInt(2, 10)
+	if tier == "thorough" {
+		steps = r.rangeInt(2, 12)
+	}
+	for s := 0; s < steps && len(live) < nH; s++ {
+		var lists, maps []int
+		for _, h := range live {
+			if isMap[h] {
+				maps = append(maps, h)
+			} else {
+				lists = append(lists, h)
+			}
+		}
+		slot := len(live)
+		i, v := pick(r, 0, 1, 2, 3, 7), pick(r, 5, 6, 7, 100)
+		if len(maps) > 0 && (len(lists) == 0 || r.chance(0.3)) {
+			text := pick(r, c09DeriveMap...)
+			args := []Arg{{K: "handle", I: pick(r, maps...)}, {K: "int", I: i}, {K: "int", I: v}}
+			names := []string{"m", "i", "v"}
+			if strings.Contains(text, "h") && len(lists) > 0 {
+				names = append(names, "h")
+				args = append(args, Arg{K: "handle", I: pick(r, lists...)})
+			} else if strings.Contains(text, "l:h") || strings.Contains(text, ", h)") {
+				continue
+			}
+			ops = append(ops, Op{Kind: "eval", Fn: fn(text, names...), Args: args, Consume: 0, Store: slot + 1})
+			isMap[slot] = true
+		} else if len(lists) > 0 {
+			text := pick(r, c09Derive...)
+			// bias to branching from the same parent
+			parent := pick(r, lists...)
+			if r.chance(0.5) {
+				parent = lists[0]
+			}
+			args := []Arg{{K: "handle", I: parent}, {K: "handle", I: pick(r, lists...)}, {K: "int", I: i}, {K: "int", I: v}}
+			cons := pick(r, 0, 0, 0, -1, 2)
+			ops = append(ops, Op{Kind: "eval", Fn: fn(text, "h", "g", "i", "v"), Args: args, Consume: cons, Store: slot + 1})
+		} else {
+			continue
+		}
+		live = append(live, slot)
+		observeAll()
+	}
+	host := HostTables{Costs: []CostProf{{Base: pick(r, int64(0), 0, 300_000)}}, Fails: []Match{{}, {Kind: "eq", A: pick(r, 2, 4, 6)}}}
+	sim, stalls := genSim(r, true, true)
+	sc := &Script{Setup: setup, Clients: [][]Op{ops}, Host: host, NFn: len(setup), NHandle: nH}
+	return &Case{Class: fmt.Sprintf("steps=%d", steps), Sim: sim, StallF: stalls, Script: sc}
+}
+
+// ---------- execution / oracles ----------
+
+var refCache = map[string]Outcome{}
+
+func opKey(text string, op *Op, host *HostTables) string {
+	b, _ := json.Marshal(struct {
+		T string
+		A []Arg
+		C int
+		H *HostTables
+	}{text, op.Args, op.Consume, host})
+	return string(b)
+}
+
+// isolated evaluates one (program, arguments, consumption) on a fresh generator, alone,
+// sequentially (NumCPU=1, canonical schedule).
+func isolated(text string, names []string, op *Op, host HostTables, o *Obs) Outcome {
+	key := opKey(text, op, &host)
+	if oc, ok := refCache[key]; ok {
+		return oc
+	}
+	sc := &Script{Setup: []Op{{Kind: "gen", Text: text, ArgNames: names}}, Clients: [][]Op{{*op}}, Host: host, NFn: 1}
+	sc.Clients[0][0].Fn = 0
+	sc.Clients[0][0].Store = 0
+	r := runScript(sc, canonicalSim(1), Budgets{MaxYields: 80_000_000, GraceYields: 2_000_000, GraceTime: int64(time.Hour)})
+	o.absorb(r)
+	oc := Outcome{Skipped: true}
+	if r.Outcomes[0][0].Ok && len(r.Outcomes[1]) == 1 && r.Res.End != "panic" && r.Res.End != "deadlock" {
+		oc = r.Outcomes[1][0]
+	} else if !r.Outcomes[0][0].Ok {
+		oc = Outcome{Skipped: true}
+	} else {
+		oc = Outcome{Done: false}
+	}
+	if len(refCache) > 20000 {
+		refCache = map[string]Outcome{}
+	}
+	refCache[key] = oc
+	return oc
+}
+
+func execHist(c *Case, sc *Script, o *Obs) {
+	b := Budgets{MaxYields: 120_000_000, GraceYields: 20_000_000, GraceTime: int64(time.Hour)}
+	prop := c.Prop
+	judge := func(name string, r *RunOut) {
+		res := r.Res
+		if r.Races > 0 {
+			raceVerdicts(prop, name, o)
+		}
+		switch res.End {
+		case "deadlock":
+			o.add(name, prop+":deadlock", fmt.Sprintf("%+v", res.Leftover))
+			return
+		case "panic":
+			o.add(name, prop+":panic-escaped:"+res.Panic.Role, res.Panic.Value)
+			return
+		case "yield-budget", "decision-budget", "time-budget":
+			if !res.RootDone {
+				o.add(name, prop+":hang", res.End)
+				return
+			}
+		}
+		if prop == "C09" {
+			judgeC09(name, sc, r, o)
+		} else {
+			judgeC10(name, prop, sc, r, o)
+		}
+	}
+	_, test := twoRuns(c, sc, b, o, judge)
+	n := 0
+	for _, oc := range test.Outcomes[1:] {
+		n += len(oc)
+	}
+	o.Outcome = fmt.Sprintf("%d operations", n)
+	switch prop {
+	case "C11":
+		o.NonTrivial = len(sc.Clients) >= 2 && test.Res.Stats.Switches >= 4
+	default:
+		o.NonTrivial = n >= 2
+	}
+}
+
+func judgeC10(name, prop string, sc *Script, r *RunOut, o *Obs) {
+	// program text per function slot, tracked through the history of gen ops (setup first;
+	// client gen ops only occur with a single client)
+	texts := make([]string, max(sc.NFn, 1))
+	names := make([][]string, len(texts))
+	for _, op := range sc.Setup {
+		if op.Kind == "gen" && op.Fn >= 0 && op.Fn < len(texts) {
+			texts[op.Fn], names[op.Fn] = op.Text, op.ArgNames
+		}
+	}
+	for ci, ops := range sc.Clients {
+		for j := range ops {
+			op := &ops[j]
+			got := r.Outcomes[1+ci][j]
+			if op.Kind == "gen" {
+				if op.Fn >= 0 && op.Fn < len(texts) {
+					texts[op.Fn], names[op.Fn] = op.Text, op.ArgNames
+				}
+				continue
+			}
+			if got.Skipped || !got.Done || op.Fn < 0 || op.Fn >= len(texts) || texts[op.Fn] == "" {
+				continue
+			}
+			want := isolated(texts[op.Fn], names[op.Fn], op, sc.Host, o)
+			if want.Skipped || !want.Done {
+				continue
+			}
+			if want.class() != got.class() {
+				sig := prop + ":outcome-differs-from-isolated"
+				// a wrong value in a run in which the race detector fired is attributed to that race
+				for _, v := range o.Verdicts {
+					if v.Run == name && strings.Contains(v.Sig, ":race:") {
+						sig += "+" + strings.TrimPrefix(v.Sig, prop+":")
+						break
+					}
+				}
+				o.add(name, sig, fmt.Sprintf("client %d op %d: %s with args %s consume=%d: isolated=%s here=%s (%s)",
+					ci, j, texts[op.Fn], argString(op.Args), op.Consume, trunc(want.class(), 160), trunc(got.class(), 160), trunc(got.Err, 200)))
+			}
+		}
+	}
+}
+
+func argString(a []Arg) string {
+	b, _ := json.Marshal(a)
+	return trunc(string(b), 200)
+}
+
+// judgeC09: every successful observation of a handle must equal the first one, whatever
+// happened in between; a second derivation with the same operation and arguments from
+// unchanged parents must be observed equal to the first.
+func judgeC09(name string, sc *Script, r *RunOut, o *Obs) {
+	if len(sc.Clients) != 1 {
+		return
+	}
+	ops := sc.Clients[0]
+	outs := r.Outcomes[1]
+	texts := make([]string, len(sc.Setup))
+	for _, op := range sc.Setup {
+		if op.Fn >= 0 && op.Fn < len(texts) {
+			texts[op.Fn] = op.Text
+		}
+	}
+	first := map[string]string{} // (handle, observer) -> first successful observation
+	firstAt := map[string]int{}
+	lastDerive := ""
+	for j := range ops {
+		op := &ops[j]
+		if j >= len(outs) || !outs[j].Done {
+			break
+		}
+		if !op.Observe {
+			if op.Fn >= 0 && op.Fn < len(texts) {
+				lastDerive = fmt.Sprintf("op %d: %s %s -> h%d (%s)", j, texts[op.Fn], argString(op.Args), op.Store-1, outs[j].class())
+			}
+			continue
+		}
+		if len(op.Args) == 0 || outs[j].Skipped {
+			continue
+		}
+		key := fmt.Sprintf("h%d/%d", op.Args[0].I, op.Fn)
+		if !outs[j].Ok {
+			continue // a failing observation (injected fault) is no value
+		}
+		if f, ok := first[key]; !ok {
+			first[key] = outs[j].Val
+			firstAt[key] = j
+		} else if f != outs[j].Val {
+			o.add(name, "C09:value-changed", fmt.Sprintf("handle h%d observed by %q: first (op %d) %s, now (op %d) %s; last operation before: %s",
+				op.Args[0].I, texts[op.Fn], firstAt[key], trunc(f, 200), j, trunc(outs[j].Val, 200), lastDerive))
+		}
+	}
+}
